@@ -6,7 +6,7 @@ CONSTANTS
     MaxN = 6
     Ks = {3}
     MaxIters = {1, 3}
-    LCM = 60
+    FullLayer = FALSE
     ShowSwap = FALSE
     RowSum = 0
     ShowEmpty = TRUE
